@@ -602,12 +602,14 @@ def evaluate(schema, ci, fault, bs, expectation=None, Ref=None):
         tp.append(f"typing walk raised {type(e).__name__}: {e}")
     for t in tp[:3]:
         problems.append(("ill-typed-result", t))
-    # encodable again
-    try:
-        again = bytes(outs[1][1])
-    except Exception as e:  # noqa
-        again = None
-        problems.append(("result-not-encodable", f"bytes(result) raises {type(e).__name__}: {e}"))
+    # encodable again (not attempted on an ill-typed result: bytes() of a message whose message-typed field
+    # holds an int n would allocate n bytes)
+    again = None
+    if not tp:
+        try:
+            again = bytes(outs[1][1])
+        except Exception as e:  # noqa
+            problems.append(("result-not-encodable", f"bytes(result) raises {type(e).__name__}: {e}"))
     # isolation: records that do not belong to a declared field (unknown number, non-fitting wire type, groups)
     # are kept verbatim, in order, and removing them changes no attribute
     if sclass == "valid":
@@ -654,6 +656,11 @@ _G = {}
 
 def _worker(span):
     lo, hi = span
+    try:  # a broken decoder must not be able to exhaust the machine's memory through the harness
+        import resource
+        resource.setrlimit(resource.RLIMIT_AS, (4 << 30, 4 << 30))
+    except Exception:  # noqa
+        pass
     schemas, cases, refs = _G["schemas"], _G["cases"], _G["refs"]
     out = []
     for i in range(lo, hi):
@@ -821,11 +828,13 @@ def run(ctx):
                  cls=None, input=fail_input(schemas[si], si, ci, fault, bs), implementation=pairs[j][1][:3000])
     ctx.cov["disagreements_checked"] = len(pairs)
     # ---- side conditions of the theorems on the generated schemas (non-vacuity)
-    side = [(f"cbool (wf_schema sc{i} && builtins_plain sc{i})", lib.cbool(True)) for i in range(len(schemas))]
+    side = [(f"cbool (wf_schema sc{i} && entries_agree sc{i})", lib.cbool(True)) for i in range(len(schemas))]
     badside = lib.coq_compare(ctx, "c17side", IMPORTS, side, chunk=8, prelude=prelude)
-    ctx.count("schemas_meeting_wf_schema_and_builtins_plain", len(side) - len(badside))
+    builtins_ok = [s.coq().startswith("(mkS (builtin_classes ++ [") for s in schemas]   # has_builtins holds by construction of the literal
+    ctx.count("schemas_meeting_wf_schema_entries_agree_has_builtins", len(side) - len(badside) if all(builtins_ok) else 0)
+    ctx.count("schemas", len(schemas))
     for j in badside:
-        ctx.notes.append(f"generated schema {j} does not satisfy wf_schema && builtins_plain (theorems do not speak about it): {schemas[j].describe()}")
+        ctx.notes.append(f"generated schema {j} does not satisfy wf_schema && entries_agree (theorems do not speak about it): {schemas[j].describe()}")
     for s in schemas:
         s.dispose()
 
